@@ -28,15 +28,17 @@ def b(**kw):
 PROPERTIES = {
     "C01": {
         "runs": {
-            "quick": [H("HarnessC01a", b(K=3, CACHE=0)), H("HarnessC01a", b(K=3, CACHE=1)), H("HarnessC01a", b(K=3, CACHE=1, BF=3)), H("HarnessC01a", b(K=4, CACHE=0), sample_every=500), H("HarnessC01e", b(K=3))],
-            "thorough": [H("HarnessC01e", b(K=4), sample_every=200), H("HarnessC01a", b(K=3, CACHE=0)), H("HarnessC01a", b(K=3, CACHE=1)), H("HarnessC01a", b(K=3, CACHE=0, BF=3)),
+            "quick": [H("HarnessC01a", b(K=3, CACHE=0)), H("HarnessC01a", b(K=3, CACHE=1)), H("HarnessC01a", b(K=3, CACHE=1, BF=3)), H("HarnessC01a", b(K=4, CACHE=0), sample_every=500), H("HarnessC01e", b(K=3)),
+                      H("HarnessC01d", {"K": 2, "BF": 4, "SIGNED": 0, "KW": 5, "Lmax": 8}, sample_every=200)],
+            "thorough": [H("HarnessC01e", b(K=4), sample_every=200), H("HarnessC01d", {"K": 2, "BF": 2, "SIGNED": 0, "KW": 5, "Lmax": 8}, sample_every=1000), H("HarnessC01d", {"K": 2, "BF": 3, "SIGNED": 0, "KW": 5, "Lmax": 8}, sample_every=500),
+                         H("HarnessC01d", {"K": 2, "BF": 4, "SIGNED": 0, "KW": 5, "Lmax": 8}, sample_every=200), H("HarnessC01d", {"K": 2, "BF": 2, "SIGNED": 1, "KW": 4, "Lmax": 8}, sample_every=500), H("HarnessC01d", {"K": 2, "BF": 3, "SIGNED": 1, "KW": 4, "Lmax": 8}, sample_every=500), H("HarnessC01a", b(K=3, CACHE=0)), H("HarnessC01a", b(K=3, CACHE=1)), H("HarnessC01a", b(K=3, CACHE=0, BF=3)),
                          H("HarnessC01a", b(K=4, CACHE=0), sample_every=500)],
         },
         "labels": ["C01."],
         "extra_labels": ["uncaught-panic", "deadlock", "nontermination"],
-        "must_reach": ["C01.step.iter-seq", "C01.step.get-found", "C01.h.delete.result", "C01.slice-values.contents", "C01.slice-values.delete.result"],
+        "must_reach": ["C01.step.iter-seq", "C01.step.get-found", "C01.h.delete.result", "C01.slice-values.contents", "C01.slice-values.delete.result", "C01.int-keys.contents", "C01.int-keys.get"],
         "bounds_statement": "histories of <= K operations (insert / delete with arbitrary key and value / persist+reload / clone / persist) from the empty tree over symbolic keys (any order, ties, any layer <= Lmax); battery after every operation",
-        "outside": ["histories longer than K", "built-in key types at tree level (covered per type by the C14 leaf harnesses)", "default JSON marshaler", "branch factors other than those listed"],
+        "outside": ["histories longer than K", "string / []byte / struct keys at tree level (their comparison and layer functions are covered per type by the C14 leaf harnesses; integer keys run end-to-end in HarnessC01d)", "default JSON marshaler", "branch factors other than those listed"],
         "assumptions": COMMON_ASSUMPTIONS,
     },
     "C02": {
